@@ -188,6 +188,17 @@ fn user_values(axis: (i32, i32, i32), knots: Option<&Knots>) -> Vec<i32> {
             }
         }
     }
+    if let Some(k) = knots {
+        // points strictly inside every avar segment (midpoint and quarter points of the knot pre-images): closely
+        // spaced knots amplify any loss of precision in the segment interpolation
+        let pre = |f: i64| if f < 0 { def + (def - min) * f / 16384 } else { def + (max - def) * f / 16384 };
+        for w in k.windows(2) {
+            let (a, b) = (pre(w[0].0 as i64), pre(w[1].0 as i64));
+            marks.push((a + b) / 2);
+            marks.push((3 * a + b) / 4);
+            marks.push((a + 3 * b) / 4);
+        }
+    }
     for m in marks {
         for d in -2..=2 {
             v.push(m + d);
@@ -246,6 +257,29 @@ fn avar_maps(max_interior: usize) -> Vec<Knots> {
         }
         k.push((16384, 16384));
         out.push(k);
+    }
+    // maps with closely spaced knots (a finely sampled curve): 4 knots `spacing` units of 2.14 apart starting at +-0.25 /
+    // -0.5, slope 1/2, 1 or 2 between them
+    for &base in &[4096i32, -8192] {
+        for &spacing in &[1i32, 2, 16, 256] {
+            for &(sn, sd) in &[(1i32, 1i32), (2, 1), (1, 2)] {
+                if (spacing * sn) % sd != 0 {
+                    continue;
+                }
+                let mut k: Knots = vec![(-16384, -16384)];
+                let interior: Vec<(i16, i16)> = (0..4).map(|i| ((base + i * spacing) as i16, (base + i * spacing * sn / sd) as i16)).collect();
+                if base > 0 {
+                    k.push((0, 0));
+                }
+                k.extend(interior);
+                if base < 0 {
+                    k.push((0, 0));
+                }
+                k.push((16384, 16384));
+                debug_assert!(k.windows(2).all(|w| w[0].0 < w[1].0 && w[0].1 <= w[1].1));
+                out.push(k);
+            }
+        }
     }
     out
 }
